@@ -138,6 +138,39 @@ fn nondyadic_end(acc: &mut Acc) {
 }
 
 
+/// Whole-second cycles that are not powers of two: every cycle length 1..=64 s (3, 41, 47, 55, ... - exactly
+/// representable, and so is every multiple used here) x delays {0, 1/2, 3} x repeat {Infinite, Times(1), Times(3)}
+/// x reverse, evaluated at exactly every cycle boundary delay + c*d (c = 1..=4) and every half cycle: the end of
+/// EVERY forward pass shows the 100% value (no wrap to 0%), through the same exact oracle as the main space.
+fn whole_second_cycles(acc: &mut Acc) {
+    let init = P::sentinel();
+    let vs = vstar();
+    for d in 1..=64u32 {
+        for &delay in &[0.0f32, 0.5, 3.0] {
+            for rep in [Rep::Infinite, Rep::Times(1), Rep::Times(3)] {
+                for reverse in [false, true] {
+                    let spec = TlSpec {
+                        kfs: vec![Kf { pos: 0.0, a: Some(0.0), k: Some(0), d: Some(0.0), easing: None }, Kf { pos: 1.0, a: Some(100.0), k: Some(1000), d: Some(-8.0), easing: None }],
+                        default_easing: 0,
+                        timing: Timing::new(d as f32, delay, rep, reverse),
+                    };
+                    let rt = RefTl::new(&spec);
+                    let tl = spec.build();
+                    let mut tls = tl.clone();
+                    tls.start_with(&vs);
+                    acc.timelines += 2;
+                    let rank = (4u64 << 60) | (d as u64) << 16 | (delay.to_bits() as u64 >> 20) << 4 | (reverse as u64) << 1;
+                    for half in 1..=8u32 {
+                        let t = delay + (half * d) as f32 / 2.0;
+                        check_eval(&spec, &rt, &tl, None, t, &init, rank, acc);
+                        check_eval(&spec, &rt, &tls, Some(&vs), t, &init, rank, acc);
+                    }
+                }
+            }
+        }
+    }
+}
+
 /// Wide (2^j+1 keyframes) and tall (all subsets of a 9-point grid) families of common.rs, evaluated at
 /// exactly every keyframe position (forward, reverse and repeated pass).
 fn wide_tall_pass(thorough: bool) -> Acc {
@@ -276,6 +309,7 @@ pub fn run(run: Run) -> ! {
     );
     let mut acc = acc;
     nondyadic_end(&mut acc);
+    whole_second_cycles(&mut acc);
     let wt = wide_tall_pass(run.is_thorough());
     let wt_evals = wt.evals;
     acc.sink.merge(wt.sink);
@@ -289,7 +323,7 @@ pub fn run(run: Run) -> ! {
     cov.insert("traces_validated_against_impl".into(), json!(acc.evals));
     cov.insert("evaluations".into(), json!(acc.evals));
     cov.insert("distinct_nontrivial".into(), json!(acc.exact_checks));
-    cov.insert("rule".into(), json!(format!("keyframe lists of size 0..={nmax} with per-property distinct positions (same alphabet as C01, incl. the variant with the f64 property d in place of a below the largest size) x 13 dyadic timing configurations (incl. Times 0/1/2/3, Infinite, reverse) x {{no start, start_with(v*)}} x exact-hit times delay+cycle*(c+p) / reversing delay+cycle*(c+p/2), delay+cycle*(c+1-p/2) for all grid positions p and cycles c<=3, t in {{0,delay/2,delay}}, every forward-pass end, and 6 after-end times (next f32 after total .. f32::MAX); every timeline is additionally evaluated wrapped in MergedTimeline::from (bit-equal); a non-dyadic companion evaluates 336 repeating timelines (cycles 0.1..2.3, delays 0..1.3, Times 1..20, reverse) at exactly the reported duration() and the 8 f32 values after it: the terminal value must be shown; plus the WIDE family (2^j+1 keyframes at i/2^j, j in {{4,8,16}} quick / 1..=17 thorough, two property patterns) and the TALL family (every subset of size >= 2 of {{0,1/8,..,1}}) evaluated at exactly every keyframe position in the forward, reverse and repeated pass, with and without start_with; non-trivial = (evaluation, property) whose position coincides with exactly one keyframe of that property, compared exactly (int) / within 4 ulp (float)")));
+    cov.insert("rule".into(), json!(format!("keyframe lists of size 0..={nmax} with per-property distinct positions (same alphabet as C01, incl. the variant with the f64 property d in place of a below the largest size) x 13 dyadic timing configurations (incl. Times 0/1/2/3, Infinite, reverse) x {{no start, start_with(v*)}} x exact-hit times delay+cycle*(c+p) / reversing delay+cycle*(c+p/2), delay+cycle*(c+1-p/2) for all grid positions p and cycles c<=3, t in {{0,delay/2,delay}}, every forward-pass end, and 6 after-end times (next f32 after total .. f32::MAX); every timeline is additionally evaluated wrapped in MergedTimeline::from (bit-equal); a non-dyadic companion evaluates 336 repeating timelines (cycles 0.1..2.3, delays 0..1.3, Times 1..20, reverse) at exactly the reported duration() and the 8 f32 values after it: the terminal value must be shown; a whole-second companion (every cycle length 1..=64 s x delays 0, 1/2, 3 x Infinite/Times(1)/Times(3) x reverse, at exactly every cycle boundary and half cycle of the first four cycles, same exact oracle: the end of every forward pass shows 100%); plus the WIDE family (2^j+1 keyframes at i/2^j, j in {{4,8,16}} quick / 1..=17 thorough, two property patterns) and the TALL family (every subset of size >= 2 of {{0,1/8,..,1}}) evaluated at exactly every keyframe position in the forward, reverse and repeated pass, with and without start_with; non-trivial = (evaluation, property) whose position coincides with exactly one keyframe of that property, compared exactly (int) / within 4 ulp (float)")));
     cov.insert("exhaustive".into(), json!(true));
     cov.insert("max_keyframes".into(), json!(nmax));
     cov.insert("after_end_constancy_groups".into(), json!(acc.after_end_groups));
